@@ -156,3 +156,10 @@ Definition call_alarms (sweeps : nat) (ws : list N) : list (N * N) :=
   let is := scan (length ws) 0 ws in
   map (fun p => (match nth_error is (fst p) with Some i => i_pc i | None => 0 end, snd p))
       (alarms sweeps (graph_of ws)).
+
+(* registers read on some path from the function's entry before anything wrote them, other than
+   the parameters (registers 0 .. arity - 1): the function computes with whatever an earlier frame
+   left there *)
+Definition entry_reads (sweeps : nat) (arity : N) (ws : list N) : N :=
+  let g := graph_of ws in
+  N.ldiff (nth 0 (solve sweeps g (repeat 0 (length g))) 0) (N.ones arity).
